@@ -228,8 +228,12 @@ fn main() {
     let ab = vec!['A', 'B'];
     // (history depth, max state sets, deviation bound, templates, base rooms); room C = room A followed by an
     // abandoned, merged power-levels fork (see history.rs)
+    // creator vs create-sender pass: rooms D/E (create event sent by M, creator C; room version 10), with
+    // the creator's first power levels, join-rule changes by creator and by moderator, a topic
+    let creator_templates: Vec<usize> = vec![14, 7, 17, 9];
     let passes: Vec<(usize, usize, usize, Vec<usize>, Vec<char>)> = match args.tier {
         Tier::Quick => vec![
+            (3, 3, 1, creator_templates.clone(), vec!['E']),
             (2, 3, 1, all_templates.clone(), ab.clone()),
             (1, 3, 2, all_templates.clone(), ab.clone()),
             (3, 2, 1, power_templates.clone(), ab.clone()),
@@ -237,6 +241,7 @@ fn main() {
         ],
         // cheapest first, so that the wall cap (if it is ever hit) cuts only the last pass
         Tier::Thorough => vec![
+            (3, 3, 2, creator_templates.clone(), vec!['E', 'D']),
             (3, 2, 1, power_templates.clone(), ab.clone()),
             (2, 4, 2, all_templates.clone(), ab.clone()),
             (2, 3, 2, all17.clone(), vec!['C']),
@@ -245,7 +250,7 @@ fn main() {
     };
     report.set_rule(&format!(
         "passes (history depth, max state sets, deviation bound, templates, base rooms) = {passes:?}. inputs: every room history reachable by appending <= depth events \
-         (14 templates x prev subsets x timestamp equal/later) to the pass's base rooms (A with power levels, B without, C = A plus an abandoned merged power-levels fork; room version 11), and every subset of 2..=max nodes containing \
+         (14 templates x prev subsets x timestamp equal/later) to the pass's base rooms (A with power levels, B without, C = A plus an abandoned merged power-levels fork, all room version 11; D / E = A / B with the create event sent by the moderator while content.creator is the creator, room version 10), and every subset of 2..=max nodes containing \
          the newest node. For each input: repeat call; every permutation of the state-set list with the auth-chain list permuted jointly, left in \
          place and reversed; 1-3 identical copies of one set must come back unchanged; deviation-bounded DFS over the iteration order of every hash \
          container resolve iterates (hook verif_order): all-default run, then every combination of <= bound deviations over the choice points \
@@ -260,7 +265,7 @@ fn main() {
     for (depth, max_k, deviations, templates, bases) in passes.iter().cloned() {
         let mut shards: Vec<(char, Action)> = vec![];
         for &with_pl in &bases {
-            let h = History::base_kind(11, with_pl);
+            let h = History::base_kind(if matches!(with_pl, 'D' | 'E') { 10 } else { 11 }, with_pl);
             for a in h.actions(&templates, &[1, 2]) {
                 shards.push((with_pl, a));
             }
@@ -272,7 +277,7 @@ fn main() {
         let prefixes = std::sync::Mutex::new(Vec::<(char, Action, Action)>::new());
         par_shards(&report, shards.len(), |i, t| {
             let (with_pl, a) = shards[i];
-            let h = History::base_kind(11, with_pl);
+            let h = History::base_kind(if matches!(with_pl, 'D' | 'E') { 10 } else { 11 }, with_pl);
             if let Some(next) = h.apply(a) {
                 ex1.visit(&next, t);
                 if split {
@@ -292,7 +297,7 @@ fn main() {
             let ex = Explorer { report: &report, templates: templates.clone(), depth, max_k, deviations };
             par_shards(&report, prefixes.len(), |i, t| {
                 let (with_pl, a, b) = prefixes[i];
-                let h = History::base_kind(11, with_pl);
+                let h = History::base_kind(if matches!(with_pl, 'D' | 'E') { 10 } else { 11 }, with_pl);
                 if let Some(h2) = h.apply(a).and_then(|h1| h1.apply(b)) {
                     ex.visit(&h2, t);
                 }
